@@ -6,6 +6,8 @@ ENGINES = [
      "kind_free_text": "rebuilds the f2py extension and five ctypes variants (plain, asan+ubsan, auto-init zero/pattern, tsan-instrumented for vrt) from /repo's working tree into /verif/.cache/<hash>"},
     {"name": "E3-vrt", "path": "vt/vrt.py + vt/c/vrt.c", "serves_properties": ["C13", "C07", "C20"],
      "kind_free_text": "stateless schedule explorer for the OpenMP kernels: gcc -fsanitize=thread instrumentation of the unmodified sources linked against our own GOMP/omp/__tsan runtime (ucontext coroutines on one OS thread), preemption-bounded DFS over choice prefixes, conflict-set fixpoint, region-boundary state hashing"},
+    {"name": "E2-history", "path": "vt/props/c17.py (BFS), vt/runner.py", "serves_properties": ["C17", "C12", "C18"],
+     "kind_free_text": "explicit-state BFS over operation histories: each transition replays the history on a fresh real object and applies one more real method call; canonical state hashing; invariant + reference model in every state"},
     {"name": "E1-explore", "path": "vt/runner.py", "serves_properties": ["C11", "C13"],
      "kind_free_text": "bounded exhaustive input/configuration enumeration against reference models, sharded over 16 processes, counted evidence, known-findings matching, replay files"},
 ]
@@ -19,6 +21,15 @@ CHECKS = [
      "technique": "stateless model checking: all OpenMP thread schedules of the real compiled kernel up to a preemption bound (CHESS-style iterative context bounding with conflict-directed scheduling points and region-boundary state caching), plus bounded exhaustive input enumeration against a steepest-ascent reference",
      "text": "localmaxlabel is compiled from /repo/src with tsan instrumentation and run on our own GOMP/tsan runtime (threads = coroutines). For all 720 orders of a 2x3 interior in a 4x5 frame (two border patterns, two poison fills) every schedule with T=2,3,4 threads and <=1 preemption (T=2: <=2; T=3 <=2 on a quarter of the images in quick, all in thorough; thorough adds T=2 bound 3, T=4 bound 2, 5x4 and 5x5 frames) is executed and compared with the oracle; dynamic-schedule row hand-out is part of the choices. Sequential semantics: all orders of interiors up to 3x3 in frames up to 5x5, all ordered sub-patterns of a 3x3 grid for the sparse kernel, dense/sparse agreement, real libgomp with 1..8 (thorough ..64) threads.",
      "note": "sequentially consistent interleavings of the -O0 loads/stores only; conflict set grown to a fixpoint over explored executions; states = schedule-tree nodes visited, every one executed on the real code (traces_validated = executions)"},
+    {"id": "C07", "engine": "E3-vrt", "level": "model_checking",
+     "technique": "bounded exhaustive enumeration of ordered grain lists x peak lists x tolerances against an arg-min reference, thread count as configuration, and stateless model checking of all OpenMP schedules of score_and_assign within a preemption bound",
+     "text": "all 64 ordered non-empty sub-lists of a 4-grain alphabet (competing, twinned, unrelated) x peak lists of 1..8193 peaks (crossing the 4096 static chunk) x 4 tolerances through score_and_assign and indexer.fight_over_peaks against a numpy arg-min oracle with set-valued ties; 1..4 (thorough ..32) real OpenMP threads bit-identical; the tsan-instrumented kernel on the vrt runtime: every schedule for T=2,3 (thorough 4) within the preemption bound gives the single-thread result; the measured conflict set is empty (only the atomic reduction is shared).",
+     "note": "refinegrains.assignlabels is exercised by C09's pipeline, not here; margin guard at tol^2 +- 1e-9 and exact ties accept either answer; SC interleavings of -O0 code"},
+    {"id": "C17", "engine": "E2-history", "level": "model_checking",
+     "technique": "explicit-state breadth-first exploration of operation histories on the real columnfile object with canonical-state de-duplication, against a reference model (ordered dict of lists)",
+     "text": "BFS over all histories of depth <= 4 (thorough 5) over a 25-operation alphabet (addcolumn/setcolumn/item/attribute assignment scalar and array, in-place writes through each view, filter, removerows, sortby, reorder, copy, copyrows, get/set bigarray list and 2-D, chkarray, writefile) from four initial objects (addcolumn-built, text file, dict, HDF); every transition is executed on the implementation; after each one the rectangular/self-consistency invariant, model equality and copy independence are checked.",
+     "note": "argument values fixed per operation (fresh arrays, one mask, one permutation); canonical state = titles, values, dtypes, representation kind, alias relation of attribute vs stored column, bigarray bookkeeping"},
+    # --- END CHECKS
 ]
 
 NOT_APPLICABLE = [
